@@ -212,9 +212,9 @@ TEXT["C15"] = dict(
 )
 
 TEXT["C13"] = dict(
-    text="Machine-checked Lean 4 theorems about the offset relocation scheme M2Model::write uses for preserved key-frame data in all ten animated sections: for every list of blobs in which equal original offsets carry equal bytes, every original offset is mapped and the written data section holds exactly that blob at the mapped offset, whether written for this track or shared with an earlier one (relocate_reads); equal original offsets get equal new offsets (relocate_alias); nothing is written twice (emit_bounded). No bound on the number of tracks or sizes. Tied to the code by comparing the model's relocated offsets with those found in written files for bones with shared and own time lines, and by write->parse->write / conversion content oracles for models (key frames read through the file's (count, offset) pairs) and for skins in both layouts.",
-    note="Partial: bones (translation/scale), vertices, textures with names, materials, transparency, events with ranges, attachments and cameras are generated; lights, emitters, colour/texture animations, bone rotations and anim files are not; whole-model content preservation is the oracle's part, the relocation theorems are tied to the bone, event, attachment and camera sections. Three defects repaired in /repo (skin submesh record size 40 vs 48; texture file-name references patched into other sections' bytes; event ranges not relocated); one known finding (D40: tiny old-layout skins are taken for the versioned layout).",
-    technique="Lean 4 proof (invariant over the first-occurrence relocation map and the emitted data, by induction over the blob list) + differential correspondence on relocated offsets + round-trip/conversion oracles",
+    text="Machine-checked Lean 4 theorems about the offset relocation scheme M2Model::write uses for preserved key-frame data in all ten animated sections: for every list of blobs in which equal original offsets carry equal bytes, every original offset is mapped and the written data section holds exactly that blob at the mapped offset, whether written for this track or shared with an earlier one (relocate_reads); equal original offsets get equal new offsets (relocate_alias); nothing is written twice (emit_bounded). No bound on the number of tracks or sizes. ANIMATION FILES: a word-level model of the modern .anim container (header, entry table, sections with per-bone offset table and sequential track data) with anim_section_roundtrip (a section survives write->parse wherever it lies, with the size the writer records) and anim_file_roundtrip (whole files, any number of sections, bones and keys). Tied to the code by the model reading the writer's bytes and laying them out again byte for byte (c13animparse / c13animrw), by comparing the model's relocated offsets with those found in written files for bones with shared and own time lines, and by write->parse->write / conversion content oracles for models (key frames read through the file's (count, offset) pairs) and for skins in both layouts.",
+    note="Partial: bones (translation/scale), vertices, textures with names, materials, transparency, events with ranges, attachments and cameras are generated; .anim files (modern container; write->parse->write, same-version and cross-container conversion) are generated; lights, emitters, colour/texture animations and bone rotations are not; whole-model content preservation is the oracle's part, the relocation theorems are tied to the bone, event, attachment and camera sections. Four defects repaired in /repo (skin submesh record size 40 vs 48; texture file-name references patched into other sections' bytes; event ranges not relocated; D64 the .anim writer recorded a section size the reader cannot use - no file with bone data parsed back - found because the section theorem needed entrySize = 16 + 4*bones); known findings D40 (tiny old-layout skins are taken for the versioned layout), D65 (the legacy .anim reader is a placeholder), D66 (a trackless bone's id is not stored).",
+    technique="Lean 4 proof (invariant over the first-occurrence relocation map and the emitted data, by induction over the blob list; .anim container write/parse composition by induction over bones and sections) + differential correspondence on relocated offsets and .anim bytes + round-trip/conversion oracles",
 )
 
 TEXT["C05"] = dict(
